@@ -19,8 +19,8 @@ ORACLE = {
     "compile_set": {"FALSE": 1},
     "compile_quasiquote": {"FALSE": 1},
     "compile_runtime_procedure_application": {"FALSE": 2},
-    "compile_runnable": {"TRUE": 1, "LAST": 1},   # TRUE: the unspliced fallback for an empty splice; LAST: the spliced forms
-    "eval": {"TRUE": 1, "LAST": 1},
+    "compile_runnable": {"LAST": 1},
+    "eval": {"LAST": 1},
 }
 WHY = {
     "compile_if": "the test of `if` is not a tail position; consequent and alternate inherit the context",
